@@ -25,17 +25,17 @@ const (
 )
 
 type Node struct {
-	ID   int      `json:"id"`
-	Mod  string   `json:"mod"`  // "A", "B", "H"
-	Form string   `json:"form"` // how the parent calls it
-	P    []byte   `json:"p"`
-	R    []byte   `json:"r"`
-	K    []int64  `json:"k"`            // result constants
-	ArgC [][]int64 `json:"argc"`        // per child, per parameter constants
-	Kids []*Node  `json:"kids"`
-	Out  string   `json:"out"` // ret | unreachable | divzero | oob | panic | exit
-	RetForm int   `json:"ret_form,omitempty"` // wasm ret: 0 fall through, 1 return, 2 br to the function label, 3 br_if, 4 br_table
-	Code uint32   `json:"code,omitempty"`
+	ID      int       `json:"id"`
+	Mod     string    `json:"mod"`  // "A", "B", "H"
+	Form    string    `json:"form"` // how the parent calls it
+	P       []byte    `json:"p"`
+	R       []byte    `json:"r"`
+	K       []int64   `json:"k"`    // result constants
+	ArgC    [][]int64 `json:"argc"` // per child, per parameter constants
+	Kids    []*Node   `json:"kids"`
+	Out     string    `json:"out"`                // ret | unreachable | divzero | oob | panic | exit
+	RetForm int       `json:"ret_form,omitempty"` // wasm ret: 0 fall through, 1 return, 2 br to the function label, 3 br_if, 4 br_table
+	Code    uint32    `json:"code,omitempty"`
 }
 
 type Program struct {
